@@ -52,6 +52,7 @@ class GSock(object):
 
     def shutdown(self, how):
         self.log.append('sock.shutdown')
+        self.log.append(('shutdown-how', how))
         if self.shutdown_raises:
             raise socket_mod.error('not connected')
 
@@ -230,6 +231,13 @@ class Lifecycle(Unit):
                     E.check('disconnect.immediate-writes-nothing', '_write_packet' not in self.log and 'sock.send' not in self.log)
                 if sstate.startswith('open'):
                     E.check('disconnect.closes', self.log.count('sock.close') == 1 and 'file.close' in self.log)
+                    # "always leads to the networking thread terminating": the thread may be blocked in recv() inside a
+                    # frame; assumed socket contract - a blocked recv returns only once the READ direction is shut down
+                    # (close() from another thread does not wake it).  Seeded change C16-r9: shutdown(SHUT_WR).
+                    hows = [x[1] for x in self.log if isinstance(x, tuple) and x[0] == 'shutdown-how']
+                    E.check('disconnect.wakes-blocked-reader', len(hows) >= 1 and
+                            all(h in (socket_mod.SHUT_RD, socket_mod.SHUT_RDWR) for h in hows),
+                            note='socket.shutdown must include the read direction; called with %r' % (hows,))
                 # idempotent
                 n = len(self.log)
                 try:
@@ -251,6 +259,8 @@ class Lifecycle(Unit):
             rp = c12.replay_flush()        # incl. socket.shutdown raising ENOTCONN: the socket must be closed all the same
         if not rp['confirmed'] and label.startswith('disconnect'):
             rp = replay_flush_send_fails()
+        if not rp['confirmed'] and label.startswith('disconnect.wakes'):
+            rp = replay_blocked_reader()
         return rp
 
     def bounded(self, rng, tier):
@@ -259,6 +269,8 @@ class Lifecycle(Unit):
             live = replay_peer_gone()
         if not live['confirmed']:
             live = replay_flush_send_fails()
+        if not live['confirmed']:
+            live = replay_blocked_reader()
         if live['confirmed']:
             return dict(name='C16.live', evaluations=1, failures=[dict(call=live['call'], observed=live['observed'],
                                                                        witness='live-lifecycle')], bound='one live scenario')
@@ -462,6 +474,56 @@ def replay_peer_gone():
     return dict(confirmed=bad is not None,
                 call='server sends one packet and resets the connection; a listener queues two packets and calls disconnect()',
                 observed=bad or 'conforms')
+
+
+def replay_blocked_reader():
+    """Live: the server announces a 10-byte frame, sends 3 bytes of it and stalls with the TCP connection open; the
+    networking thread blocks in recv().  disconnect() from the main thread must make it terminate."""
+    import socket, time
+    srv = socket.socket()
+    srv.bind(('127.0.0.1', 0))
+    srv.listen(1)
+    port = srv.getsockname()[1]
+    held = []
+
+    def server():
+        try:
+            peer = srv.accept()[0]
+            held.append(peer)
+            peer.settimeout(2.0)
+            try:
+                peer.recv(4096)
+            except OSError:
+                pass
+            peer.sendall(bytes([10, 0x02, 0x01]) + b'ab'[:1])       # length 10, then only 3 body bytes
+        except OSError:
+            pass
+    th = threading.Thread(target=server, daemon=True)
+    th.start()
+    c = Connection('127.0.0.1', port, username='u', allowed_versions={757}, handle_exception=lambda e, i: None)
+    bad = None
+    try:
+        k, v = bounded_call(c.connect, timeout=5.0)
+        if k != 'ok':
+            return dict(confirmed=False, call='blocked-reader scenario', observed='scenario did not run: connect %s %r' % (k, v))
+        time.sleep(0.4)                                  # the thread is now blocked inside the frame body
+        t = c.networking_thread
+        k, v = bounded_call(c.disconnect, timeout=5.0)
+        if k != 'ok':
+            bad = 'disconnect() %s %r' % (k, v)
+        elif t is not None:
+            t.join(4.0)
+            if t.is_alive():
+                bad = 'the networking thread is still alive 4 s after disconnect() (blocked in recv inside a frame)'
+    finally:
+        for p in held:
+            try:
+                p.close()
+            except OSError:
+                pass
+        srv.close()
+    return dict(confirmed=bad is not None, call='server sends a length prefix of 10 and 3 body bytes, then stalls with the connection '
+                'open; disconnect() from the main thread', observed=bad or 'the thread terminated')
 
 
 def replay_flush_send_fails():
